@@ -206,8 +206,8 @@ def run_languagetool(plain, language, disable, enable,
             tex2txt.fatal('error running ' + repr(' '.join(lt_cmd))
                             + ' in directory ' + repr(cmdline.lt_directory))
 
-    out = out.decode(encoding='utf-8')
     try:
+        out = out.decode(encoding='utf-8')
         dic = json_decoder.decode(out)
     except:
         json_fatal('JSON root element')
@@ -288,8 +288,8 @@ def run_textgears(plain):
     except:
         tex2txt.fatal('error connecting to "' + textgears_server + '"')
 
-    out = out.decode(encoding='utf-8')
     try:
+        out = out.decode(encoding='utf-8')
         dic = json_decoder.decode(out)
     except:
         json_fatal('JSON root element')
